@@ -3,11 +3,31 @@ package common
 import (
 	"fmt"
 
+	"github.com/protolambda/ztyp/bitfields"
 	"github.com/protolambda/ztyp/codec"
 	"github.com/protolambda/ztyp/conv"
 	"github.com/protolambda/ztyp/tree"
 	. "github.com/protolambda/ztyp/view"
 )
+
+// ReadBitList reads a bitlist that fills the remaining scope. A bitlist of bitLimit bits occupies up to
+// bitLimit/8 + 1 bytes (the delimiter bit needs a byte of its own when bitLimit is a multiple of 8);
+// codec.DecodingReader.BitList (ztyp v0.2.2) wrongly rejects that last byte.
+func ReadBitList(dr *codec.DecodingReader, dst *[]byte, bitLimit uint64) error {
+	byteLen := dr.Scope()
+	if byteLimit := (bitLimit >> 3) + 1; byteLen > byteLimit {
+		return fmt.Errorf("bitlist is too big: %d bytes, limit is %d (bitlimit %d)", byteLen, byteLimit, bitLimit)
+	}
+	if uint64(cap(*dst)) < byteLen {
+		*dst = make([]byte, byteLen, byteLen)
+	} else {
+		*dst = (*dst)[:byteLen]
+	}
+	if _, err := dr.Read(*dst); err != nil {
+		return err
+	}
+	return bitfields.BitlistCheck(*dst, bitLimit)
+}
 
 type JustificationBits [1]byte
 
